@@ -226,7 +226,7 @@ func (env *specEnv) localAlloc(name string) *ssa.Alloc {
 		} else if _, ok := env.fr.vals[a]; ok && !env.x.localCell(a) {
 			live = true
 		}
-		if live && (best == nil || a.Pos() > best.Pos()) {
+		if live && (best == nil || a.Pos() > best.Pos() || (a.Pos() == best.Pos() && a.Block() != nil && best.Block() != nil && a.Block().Index > best.Block().Index)) {
 			best = a
 		}
 	}
@@ -865,6 +865,10 @@ func (x *Exec) specCall(env *specEnv, callee *ssa.Function, args []Value) Value 
 		return x.recCall(env.st, callee, args)
 	}
 	if len(callee.Blocks) == 0 {
+		if x.E.scalarOnlyExternal(callee) {
+			// the same deterministic uninterpreted function the executor uses for such calls
+			return tupleOrSingle(x.uninterpretedCall(env.st, callee, args), callee)
+		}
 		unsup("contract calls %s which has no body and no model", callee)
 	}
 	st := env.st.Clone()
